@@ -641,10 +641,11 @@ pub fn engine_tls(a: &Args) {
 // C16
 
 const ALPHA_MIN: [u8; 16] = [0x41, 0x80, 0x90, 0xA0, 0xBF, 0xC0, 0xC2, 0xE0, 0xE1, 0xED, 0xEE, 0xF0, 0xF1, 0xF4, 0xF5, 0xFF];
-const ALPHA_EXT: [u8; 25] = [
-    0x41, 0x80, 0x90, 0xA0, 0xBF, 0xC0, 0xC2, 0xE0, 0xE1, 0xED, 0xEE, 0xF0, 0xF1, 0xF4, 0xF5, 0xFF, 0x00, 0x7F, 0x8F, 0x9F, 0xC1, 0xDF, 0xEC, 0xEF, 0xF3,
+// 25 class boundaries + 0xBB and 0xFE so that well-known signatures (EF BB BF, FE FF, FF FE) occur
+const ALPHA_EXT: [u8; 27] = [
+    0x41, 0x80, 0x90, 0xA0, 0xBF, 0xC0, 0xC2, 0xE0, 0xE1, 0xED, 0xEE, 0xF0, 0xF1, 0xF4, 0xF5, 0xFF, 0x00, 0x7F, 0x8F, 0x9F, 0xC1, 0xDF, 0xEC, 0xEF, 0xF3, 0xBB, 0xFE,
 ];
-const ALPHA_U16: [u16; 10] = [0x0000, 0x0041, 0xD7FF, 0xD800, 0xDBFF, 0xDC00, 0xDFFF, 0xE000, 0xFFFD, 0xFFFF];
+const ALPHA_U16: [u16; 12] = [0x0000, 0x0041, 0xD7FF, 0xD800, 0xDBFF, 0xDC00, 0xDFFF, 0xE000, 0xFFFD, 0xFFFF, 0xFEFF, 0xFFFE];
 
 fn check_utf8(sink: &Sink, b: &[u8], local: &mut [u64; 8]) {
     let std_r = std::str::from_utf8(b);
@@ -745,16 +746,33 @@ pub fn engine_utf(a: &Args) {
     let n1 = enum_seqs(&sink, nthreads, &ALPHA_MIN, min_len, &none8, &check_utf8);
     scope.push(format!("all {n1} byte sequences of length 0..={min_len} over the 16-symbol class alphabet"));
     let n2 = enum_seqs(&sink, nthreads, &ALPHA_EXT, ext_len, &none8, &check_utf8);
-    scope.push(format!("all {n2} byte sequences of length 0..={ext_len} over the 25-symbol extended alphabet"));
+    scope.push(format!("all {n2} byte sequences of length 0..={ext_len} over the 27-symbol extended alphabet"));
     // embedded after valid prefixes that straddle the inline limit / the capacity guess
-    let prefixes8: Vec<Vec<u8>> = vec![b"0123456789ab".to_vec(), "0123456789abc€".as_bytes()[..15].to_vec(), b"0123456789abcdef".to_vec(), "0123456789abcdé".as_bytes().to_vec()];
+    let prefixes8: Vec<Vec<u8>> = vec![
+        b"0123456789ab".to_vec(),
+        "0123456789abc€".as_bytes()[..15].to_vec(),
+        b"0123456789abcdef".to_vec(),
+        "0123456789abcdé".as_bytes().to_vec(),
+        // well-known signatures that a decoder might be tempted to treat specially
+        b"\xEF\xBB\xBF".to_vec(),
+        b"\xEF\xBB\xBFtext after a signature".to_vec(),
+        b"\xFF\xFE".to_vec(),
+    ];
     let prefixes8: Vec<Vec<u8>> = prefixes8.into_iter().filter(|p| std::str::from_utf8(p).is_ok() || true).collect();
     let n3 = enum_seqs(&sink, nthreads, &ALPHA_MIN, pre_len, &prefixes8, &check_utf8);
-    scope.push(format!("{n3} sequences of length 0..={pre_len} embedded after 12/15/16/17-byte prefixes"));
+    scope.push(format!("{n3} sequences of length 0..={pre_len} embedded after 12/15/16/17-byte prefixes and after the signatures EF BB BF / FF FE"));
     let none16: Vec<Vec<u16>> = vec![vec![]];
     let n4 = enum_seqs(&sink, nthreads, &ALPHA_U16, u16_len, &none16, &check_utf16);
     scope.push(format!("all {n4} u16 sequences of length 0..={u16_len} over {{0,41,D7FF,D800,DBFF,DC00,DFFF,E000,FFFD,FFFF}}"));
-    let prefixes16: Vec<Vec<u16>> = vec!["0123456789ab".encode_utf16().collect(), "0123456789abcde".encode_utf16().collect(), "0123456789abcdef".encode_utf16().collect(), "€€€€€".encode_utf16().collect()];
+    let prefixes16: Vec<Vec<u16>> = vec![
+        "0123456789ab".encode_utf16().collect(),
+        "0123456789abcde".encode_utf16().collect(),
+        "0123456789abcdef".encode_utf16().collect(),
+        "€€€€€".encode_utf16().collect(),
+        vec![0xFEFF],
+        vec![0xFFFE],
+        vec![0xFEFF, 0x61, 0x62, 0x63, 0x64, 0x65, 0x66, 0x67, 0x68, 0x69, 0x6A, 0x6B, 0x6C, 0x6D, 0x6E],
+    ];
     let n5 = enum_seqs(&sink, nthreads, &ALPHA_U16, pre_len.min(4), &prefixes16, &check_utf16);
     scope.push(format!("{n5} u16 sequences embedded after prefixes whose UTF-8 length is 12/15/16/15 bytes"));
     // position sweep: a char of every width (and an invalid unit) right after p bytes/units of
